@@ -163,13 +163,14 @@ def run(ctx):
         return c.target in peer_fns
     # (b) the replay-cache accessors: methods that lock a Mutex and query / fill an LruCache
     lookup_fns, record_fns = set(), set()
+    from .common import is_lock_call
     for body in prog.prod_bodies():
         if body.root != body.defp or "shadowsocks" not in body.defp:
             continue
         fcalls = prog.flat(body.defp).calls()        # the lock may be taken in a small private helper
         names = {c.name for (_, c, _) in fcalls}
         meths = {c.method for (_, c, _) in fcalls if "LruCache" in (c.self_s or "")}
-        if not any(n.startswith("Mutex::") for n in names) or not meths or body.argc < 2 or body.local_ty(0) not in ("bool", "()"):
+        if not any(is_lock_call(c) for (_, c, _) in fcalls) or not meths or body.argc < 2 or body.local_ty(0) not in ("bool", "()"):
             continue
         if "insert" in meths:
             record_fns.add(body.defp)
@@ -265,7 +266,11 @@ def run(ctx):
     ctx.floor("V3", "stream header decoders that look the salt up", 1, len(chk))
     for body in stream_decs:
         acc = accept_blocks_of(body)
-        cn = [(blk, c, t) for (blk, c, t) in body.calls() if is_lookup(c)]
+        # (a lookup made *inside* the record function is part of recording, not the decoder's lookup step)
+        def _inside_record(blk_):
+            o_ = getattr(body, "origin", None)
+            return bool(o_) and prog.body(o_[blk_]) is not None and prog.body(o_[blk_]).root in record_fns
+        cn = [(blk, c, t) for (blk, c, t) in body.calls() if is_lookup(c) and not _inside_record(blk)]
         sn = [(blk, c, t) for (blk, c, t) in body.calls() if is_record(c)]
         opens = [(blk, c, t) for (blk, c, t) in body.calls() if c.name == "Authenticator::open" or c.method in ("decrypt_in_place", "new_decoder_with_eih")]
         if not cn:
@@ -360,6 +365,18 @@ def run(ctx):
         ctx.ob("V3", body.defp, "salt-cache-expiry", loc(t["sp"]), ok,
                f"salt cache expiry = {secs}s; must be >= 2 x {WINDOW_2022}s = {2 * WINDOW_2022}s (a request stamped now+30 stays fresh for 60 s)")
 
+    # "... also when copies arrive concurrently": the test-and-set discipline of the replay cache (C09 K3 re-evaluated)
+    from ..engine import Ctx
+    from . import c09
+    sub = Ctx(prog, "C09", ctx.tier)
+    c09.run(sub)
+    nk3 = 0
+    for o in sub.obs:
+        if o.rule == "K3":
+            nk3 += 1
+            parts = o.key.split("|")
+            ctx.ob("V3", parts[1], "concurrent:" + parts[2], o.where, o.ok, o.detail)
+    ctx.floor("V3", "replay-cache concurrency obligations (K3)", 1, nk3)
     # ---------------- V4: response bound to request ---------------------------------------------
     for body in stream_decs:
         acc = accept_blocks_of(body)
